@@ -3,10 +3,13 @@ package e1
 import (
 	"encoding/json"
 	"fmt"
+	"os"
+	"os/exec"
 	"sort"
 	"strings"
 
 	"kvassverif/internal/core"
+	"kvassverif/internal/e2"
 	"kvassverif/internal/e6"
 	"tkestack.io/kvass/pkg/target"
 )
@@ -247,8 +250,95 @@ func c19Base(tier string) int {
 	return c19NDirected + 4000
 }
 
+func c19FdCases(tier string) int {
+	if tier == "thorough" {
+		return 8
+	}
+	return 2
+}
+
+// runC19Fd: replica B in a closed loop (real api.Get/api.Post over loopback) next to a replica whose shard answers
+// 503 with an error body, for 150-400 cycles in a child process whose descriptor limit is what was open after a
+// warm-up plus 30-60; control run: the same without the broken replica. B must be coordinated to the end.
+func runC19Fd(w *core.WorkerCtx, k int) *core.CaseResult {
+	res := &core.CaseResult{Sig: fmt.Sprintf("fd-soak/%d", k), Execs: 1}
+	cycles, slack := 150+50*(k%6), []int{40, 60, 30}[k%3]
+	run := func(broken bool) (*e2.FdSoakResult, string) {
+		root := e2.ScratchRoot(w.Scratch, 400000+2*k+map[bool]int{false: 0, true: 1}[broken])
+		defer os.RemoveAll(root)
+		cmd := exec.Command(w.Self, "c19fd", "--root", root, "--cycles", fmt.Sprint(cycles), "--slack", fmt.Sprint(slack), "--broken="+fmt.Sprint(broken), "--seed", fmt.Sprint(int64(w.Seed)+int64(k)))
+		var stderr strings.Builder
+		cmd.Stderr = &stderr
+		b, err := cmd.Output()
+		if err != nil {
+			return nil, fmt.Sprintf("child: %v: %s", err, tail(stderr.String(), 300))
+		}
+		var out e2.FdSoakResult
+		lines := strings.Split(strings.TrimSpace(string(b)), "\n")
+		if err := json.Unmarshal([]byte(lines[len(lines)-1]), &out); err != nil {
+			return nil, "child output: " + err.Error()
+		}
+		if out.SetupErr != "" {
+			return nil, out.SetupErr
+		}
+		return &out, ""
+	}
+	bad := func(o *e2.FdSoakResult) string {
+		switch {
+		case len(o.CycleErrs) > 0 && o.Exhausted != "":
+			return "the coordinator's process ran out of descriptors (" + o.Exhausted + ") and then " + strings.Join(o.CycleErrs, "; ")
+		case len(o.CycleErrs) > 0:
+			return "?" + strings.Join(o.CycleErrs, "; ")
+		case !o.LateTargetHeld:
+			return "a target discovered 12 cycles before the end was never given to a shard of the healthy replica (" + o.Listed + ")"
+		}
+		return ""
+	}
+	ctl, msg := run(false)
+	if msg != "" {
+		res.Inconcl = "control run: " + msg
+		return res
+	}
+	if why := bad(ctl); why != "" {
+		res.Inconcl = "control run (no broken replica) under the same descriptor limit: " + why
+		return res
+	}
+	got, msg := run(true)
+	if msg != "" {
+		res.Inconcl = "run next to the broken replica: " + msg
+		return res
+	}
+	res.Nontrivial = got.BrokenHits >= cycles
+	res.AddStat("fd_soak_runs", 1)
+	res.AddStat("fd_soak_cycles", int64(cycles))
+	res.AddStat("fd_soak_requests_answered_503_by_the_other_replica", int64(got.BrokenHits))
+	res.AddSet("fd_soak_descriptor_growth_next_to_broken_replica", fmt.Sprint(got.FdMax-got.FdAfterWarmup))
+	if why := bad(got); strings.HasPrefix(why, "?") {
+		// a cycle that does not complete while descriptors are available: the watchdog alone is no verdict
+		res.Inconcl = "run next to the broken replica: " + why[1:]
+		return res
+	} else if why != "" {
+		res.Violate("C19/fd-soak/healthy-replica-starved", "%d cycles, descriptor limit = open after warm-up (%d) + %d; next to a replica whose shard answers 503 with an error body (%d such answers): %s; descriptors open at the end %d (highest %d); the control run without that replica was coordinated to the end with at most %d descriptors", cycles, got.FdAfterWarmup, slack, got.BrokenHits, why, got.FdEnd, got.FdMax, ctl.FdMax)
+		res.Witness = map[string]interface{}{"next_to_broken_replica": got, "control": ctl}
+	}
+	if k == 0 {
+		res.Sample = map[string]interface{}{"next_to_broken_replica": got, "control": ctl}
+	}
+	return res
+}
+
+func tail(s string, n int) string {
+	if len(s) > n {
+		return s[len(s)-n:]
+	}
+	return s
+}
+
 func runC19(w *core.WorkerCtx, idx int) *core.CaseResult {
 	if base := c19Base(w.Tier); idx >= base {
+		if k := idx - base; k >= e6.K8sReplicaCases(w.Tier) {
+			return runC19Fd(w, k-e6.K8sReplicaCases(w.Tier))
+		}
 		return e6.RunC19K8s(w, idx-base)
 	}
 	var s *c19Scenario
@@ -416,12 +506,13 @@ func init() {
 		Rule: "differential over the stub-cycle engine: scenario = options + discovery + explorer table + a victim replica scripted for 4-5 cycles + a hostile replica (shard listing fails, scaling fails early/late, entirely unready, out of sync, a different placement of the same targets incl. in-transfer copies with larger series than the explorer's estimate); " +
 			"the victim is run alone (4 repetitions; victim scripts are generated under structural conditions that make its decisions independent of map order (first-fit mode, at most one unscraped healthy target per cycle, overloaded or non-first shards report at most one target); cases that still show more than one outcome in 30 repetitions are discarded and counted) and next to the hostile replica in both orders (3 repetitions each) through the real Coordinator.Run; the canonical per-cycle trace of everything the victim's shards and manager receive (GET/POST with target lists as sets, ChangeScale arguments) must be identical; a mismatch is re-examined with 100 repetitions of the victim alone: mixed outcomes discard the case, 100 of 100 equal to each other but different from before are reported as state leaking between replicas, and the victim alone is repeated after every case for the same test; " +
 			"plus the Kubernetes replicas manager on a fake clientset: the scripted life of one StatefulSet (ready / not ready / rolling update over 4-11 cycles, 0-130 s passing between cycles through the verif hook that shifts the manager's not-ready timers) is run alone and next to a second scripted StatefulSet listed before or after it; 'handed to the coordinator in this cycle' must be identical; " +
+			"plus a soak family (2/8): the healthy replica in an E2 closed loop (real api.Get/api.Post over loopback) next to a replica whose only shard answers 503 with an error body, 150-400 cycles in a child process whose RLIMIT_NOFILE is the number of descriptors open after a warm-up plus 30-60, and a control run without that replica; violation = a cycle does not complete AND the process can open fewer than 4 further descriptors, or a target discovered 12 cycles before the end is never assigned; " +
 			"directed family: a target the victim cannot place in an early cycle and can place later while the other replica holds it in every state/series/health combination; non-trivial = case not discarded; distinct = victim script hash + hostile script hash",
 		Assumptions: []string{
 			"the explorer stub hands out one status object per target for the whole run, as Explore.Get does",
 			"per-replica guarantees themselves are judged by C01-C08 on single replicas; C19 judges independence",
 		},
-		NumCases:      func(tier string) int { return c19Base(tier) + e6.K8sReplicaCases(tier) },
+		NumCases:      func(tier string) int { return c19Base(tier) + e6.K8sReplicaCases(tier) + c19FdCases(tier) },
 		Run:           runC19,
 		MinNontrivial: 200,
 	})
